@@ -132,7 +132,8 @@ def store(pid, scr, chk):
         pass
     if not meta:
         meta = {k: v for k, v in prev.items() if k not in ("checks_run", "caught_by", "caught_with_input", "confirmed_by_lead")}
-    meta["property"] = pid
+    meta["property"] = pid[:3]
+    meta["seed_id"] = pid
     meta["confirmed_by_lead"] = scr or prev.get("confirmed_by_lead")
     runs = dict(prev.get("checks_run") or {})
     runs.update(chk or {})
@@ -147,7 +148,7 @@ if __name__ == "__main__":
     if mode == "scratch":
         scratch(pid)
     elif mode in ("check", "check-alt"):
-        props = sys.argv[3:] or [pid]
+        props = sys.argv[3:] or [pid[:3]]
         scr = None
         try:
             scr = json.load(open(os.path.join(OUT, pid, "scratch_eval.json")))
